@@ -43,6 +43,26 @@ type c12Canon struct {
 }
 
 func runC12(r *core.Run) {
+	defer pairsInLongSequences(r, "ACGTTGCAacgtNNGTGGCCAATTacgtTGCA", []pairLongFn{
+		{"ReverseComplement(nil, seq)", func(in []byte) []byte { return sequtil.ReverseComplement(nil, in) }, func(in []byte) ([]byte, bool) { return ref.RevComp(in) }},
+	})
+	defer srcWindows(r, "ACGTNacgtn", 4, []string{"ACGTTGCAACGTNNACGTacgtACGTTGCAACGTNNACGT", string(longSeq(300))}, []srcWindowFn{
+		{"ReverseComplement(nil, seq)", func(in []byte) { sequtil.ReverseComplement(nil, in) }},
+		{"ReverseComplement(dst with spare capacity, seq)", func(in []byte) { sequtil.ReverseComplement(make([]byte, 2, 64), in) }},
+		{"CanonicalSubsequences(seq, 1) walked", func(in []byte) {
+			for range sequtil.CanonicalSubsequences(in, 1) {
+			}
+		}},
+		{"CanonicalSubsequences(seq, 3) walked", func(in []byte) {
+			for range sequtil.CanonicalSubsequences(in, 3) {
+			}
+		}},
+		{"CanonicalSubsequences(seq, 3) stopped after one item", func(in []byte) {
+			for range sequtil.CanonicalSubsequences(in, 3) {
+				break
+			}
+		}},
+	})
 	firstCallClause(r, "sequtil.ReverseComplement", "sequtil.CanonicalSubsequences")
 	askedAgain(r, []againFunc{
 		{"ReverseComplement", func(in []byte) string { return string(sequtil.ReverseComplement([]byte("x"), in)) }},
